@@ -56,7 +56,7 @@ PROPS['C06'] = dict(
 PROPS['C17'] = dict(
     sess=[('sess_c17', 250, 3000)],
     events='w', state=['cap', 'used', 'ret', 'rel', 'cp', 'pq', 'conn', 'gen', 'live', 'quota'],
-    monitors=[M.mon_c17, M.mon_c17_admission],
+    monitors=[M.mon_c17, M.mon_c17_admission, M.mon_answered_released],
     title='transmit arena: retained packets stay intact and capacity is fully recovered',
     claim='Proved in Coq: a refinement of the concrete byte arena (offsets, copy_within compaction with memmove semantics, '
           'in-place encoding behind `used`, DUP poke) to the abstract list of (id, bytes, state): compaction, acknowledgement '
@@ -64,7 +64,7 @@ PROPS['C17'] = dict(
           'unchanged (DUP marking only sets bit 3 of the first byte); the geometry invariant holds in every reachable '
           'state (all slice accesses in bounds); the arena never changes size and a quiescent arena admits and encodes '
           'exactly what a new one does. Tied to the code by long differential histories comparing every retained '
-          'entry (offset, length, bytes) after every action, and a snapshot monitor.',
+          'entry (offset, length, bytes) after every action, a snapshot monitor, and the rule that an answered request (whatever the reason codes of its acknowledgement) keeps neither its slot nor its arena bytes (mon_answered_released).',
     note='Trusted: Coq kernel, model, extraction, harness, snapshot hook. No axioms. Bytes outside live entries '
          '(alignment gaps, scratch behind `used`, leftovers of failed encodes) are not modelled; they are never read.')
 
@@ -358,7 +358,9 @@ PROPS['C15'] = dict(
           'the byte stream alone. Tied to the code by the '
           'reader hook (same stream, generated fragment lists) and by twin runs: the same program and inbound stream executed with '
           'whole and with randomly fragmented reads and writes (1, 2, 3, 5 bytes) on the implementation and on the model, comparing '
-          'operation results, delivered messages and the outbound byte stream.',
+          'operation results, delivered messages and the outbound byte stream; and by pieces of one packet separated by a dropped '
+          'or timed-out read (suite py_c15s), where the messages surfaced must be exactly the deliverable PUBLISH packets among the '
+          'complete packets read (mon_c15_stream; a QoS 2 retransmission inside an open exchange is not deliverable, C04).',
     note='Inbound framing is proved for whole executions of the machine. Outbound (Owed.v): `owed`, a function of the queues '
          'alone, is what they still owe the wire; ONE engine step on ANY transport, whatever part of the packet it accepts, moves '
          'bytes from the front of owed to the end of the wire and changes nothing else (C15_engine_step_conserves: '
@@ -372,10 +374,10 @@ PROPS['C15'] = dict(
          'Trusted: Coq kernel, model, extraction, harness, reader hook. No axioms.')
 
 PROPS['C13'] = dict(
-    sess=[('sweep_c13', 150, 3000), ('py_c01', 200, 2000)],
+    sess=[('sweep_c13', 150, 3000), ('py_c01', 200, 2000), ('py_c16f', 150, 1500)],
     twins=[('py_c13', 1200, 12000)],
     events='wrf', state=['ret', 'ctl', 'rel', 'srv', 'quota', 'h', 'conn', 'live', 'rb', 'pl', 'pid', 'gen', 'cp'],
-    monitors=[M.mon_c13, M.mon_c13_wire, M.mon_panic],
+    monitors=[M.mon_c13, M.mon_c13_wire, M.mon_c13_flush, M.mon_panic],
     twin_monitors=[M.twin_c13],
     title='cancelling a cancel-safe operation loses, duplicates and corrupts nothing',
     claim='Proved in Coq: the unconsumed broker stream (reader buffer followed by the transport queue) is the same byte sequence '
@@ -385,7 +387,7 @@ PROPS['C13'] = dict(
           'by a dropped flush, and an applied request is in the arena. REFUTED for disconnect(): C13_disconnect_cancel_refuted '
           '(known finding K13d). The equality of a cancelled run (future dropped at a chosen I/O call after k calls accepting 1, 2, '
           '3 or all bytes, the dropped call repeated / followed by drive()) with its uncancelled twin — outbound packet sequence and '
-          'delivered messages — is checked on the implementation and on the model by twin runs.',
+          'delivered messages — is checked on the implementation and on the model by twin runs; from the transport calls alone: a flush that was pending when the future was dropped is issued again by the continuation (mon_c13_flush, suite py_c16f).',
     note='For the outbound drain the cancel-safety is a theorem (Sends.v): a drain dropped at any await point keeps wire ++ owed, the '
          'session invariants and the timers (C13_dropped_drain_conserves), and run again to its end it completes the byte stream as '
          'if never interrupted (C13_dropped_drain_resumes). Partial: run-to-run equality of whole operations (publish, subscribe, '
@@ -396,7 +398,7 @@ PROPS['C13'] = dict(
 PROPS['C16'] = dict(
     sess=[('drain_c16', 300, 5000), ('drain_base', 200, 4000), ('drain_c06', 150, 3000), ('drain_c03', 100, 2000), ('py_hist', 200, 3000), ('py_mixed', 200, 2000), ('py_c16f', 150, 1500)],
     events='wrf', state=['ret', 'ctl', 'rel', 'srv', 'quota', 'h', 'conn', 'live', 'pq', 'cp', 'gen'],
-    monitors=[M.mon_c16, M.mon_c16_flush, M.mon_hist, M.mon_refused_too_large, M.mon_panic],
+    monitors=[M.mon_c16, M.mon_c16_flush, M.mon_hist, M.mon_answered_released, M.mon_refused_too_large, M.mon_panic],
     title='with a responsive broker every accepted operation completes; the session quiesces',
     claim='Proved in Coq: a weight on the three outbound queues (per entry 2 + unwritten bytes while being written, 1 while awaiting '
           'its flush, 0 once sent) is strictly decreased by every write step and every flush step of the engine in every state '
@@ -434,7 +436,8 @@ PROPS['C16'] = dict(
           'transport healed, broker answering every packet including the CONNECT (session present iff no clean start), reconnect, 40 '
           'polls - must end live with no owed acknowledgement, no pending PUBREL, a publish-quiescent session and no pending handle; a '
           'poll that returns without a message must have made wire progress; an operation performing 50000 I/O calls (model: fuel) is '
-          'reported as spinning.',
+          'reported as spinning; a request whose final acknowledgement was consumed, granting or refusing, is no longer retained '
+          '(mon_answered_released).',
     note='Partial: termination of the engine loops is a theorem (strictly decreasing measure, no assumption on the transport); drive() sending everything queued on a behaving transport is a theorem (no broker size limit; C16_drive_sends_all_any_timer: also when a PINGREQ falls due), and what it writes is exactly what the queues owed (C16_drive_writes_owed); so is poll() handing an arrived packet to the session and a PUBACK completing its publish in one poll (no PINGREQ due); one whole QoS 1 exchange against the answering broker is a single theorem (Exchange.v, Exchange2.v, Exchange3.v: C16_publish_is_sent_and_answered, C16_qos1_exchange_completes, C16_qos2_exchange_completes, C16_subscribe_exchange_completes, C16_unsubscribe_exchange_completes - for QoS 2: publish, poll (PUBREC in, PUBREL out, PUBCOMP arrives), poll (PUBCOMP in) - publish() puts exactly the encoded PUBLISH on the wire, the broker reads it whole and answers with the PUBACK of its identifier, the next poll() completes the handle, returns the quota slot and leaves the session quiescent; C16_exchange_example / C16_exchange_hyps_met); that the answers to an arbitrary backlog (QoS 2, subscriptions, replays after reconnect) complete every handle within a bounded number of polls is a check over generated histories. '
          'Trusted: Coq kernel, model, extraction, harness with its healing action and automatic broker. No axioms. '
          'Known finding K12 (arena too full to reconnect) blocks the drain and is reported as KNOWN-FINDING.')
